@@ -132,6 +132,21 @@ def replay(rec):
         got = [abs(v) if iseq else v for r in rows for v in r['vals']]
         st, det = bag_compare_optional(got, [] if pc['const'] else [pc['s']], [[pc['s']]] if pc['const'] else [], absval=iseq)
         res.append(('C12.a:parent:' + pc['cid'], st, det[:200]))
+    # ---- numeric read-back through sol(stage): every stage answers with its own times and values, whatever was asked before (C07)
+    try:
+        from rockit.solution import OcpSolution
+        from replay_nlp import FakeSol
+        sol = OcpSolution(FakeSol(o, xv), B.ocp)
+        for grid in ('control', 'integrator'):
+            for si, p_ in enumerate(B.parts):
+                ts_s, xs_s = quiet(p_.stage.sample, p_.x[0], grid=grid)
+                want_t = np.array(ca.Function('t', [o.vx, o.vp], [ts_s])(xv, o.pvec)).reshape(-1)
+                want_x = np.array(ca.Function('x', [o.vx, o.vp], [xs_s])(xv, o.pvec)).reshape(-1)
+                tt, xx = quiet(sol(p_.stage).sample, p_.x[0], grid=grid)
+                okr = np.array(tt).reshape(-1).shape == want_t.shape and np.allclose(np.array(tt).reshape(-1), want_t, rtol=1e-10, atol=1e-10) and np.allclose(np.array(xx).reshape(-1), want_x, rtol=1e-10, atol=1e-10)
+                res.append(('C07.c:multi:%s' % grid, 'ok' if okr else 'mismatch', 'stage %d: sol(stage).sample gives times %s, the stage grid is %s' % (si + 1, np.round(np.array(tt).reshape(-1), 6).tolist(), np.round(want_t, 6).tolist())))
+    except Exception as e:
+        res.append(('C07.c:multi', 'error', '%s: %s' % (type(e).__name__, (str(e).splitlines() or [''])[-1][:200])))
     # ---- no decision variable that belongs to no stage and is not the parent's own (stages without algebraic variables)
     if not any(d['algs'] for d in final['stages']):
         unowned = o.nx - len(o.owner)
@@ -283,4 +298,100 @@ def builtin_saveload():
             res.append(('C18.a:builtin:' + tag, 'error', '%s: %s' % (type(e).__name__, (str(e).splitlines() or [''])[-1][:200])))
         finally:
             if os.path.exists(fn): os.unlink(fn)
+    return res
+
+
+def vector_interval_param():
+    """C09: a vector-valued per-interval parameter whose value matrix happens to be square (n = N, or n = N+1 with
+    include_last): column k is the value on interval k -- seen by sample() and by the dynamics (rows compared with the
+    same OCP with the values written in as per-interval constants through a time-indexed lookup)."""
+    import casadi as ca
+    from rockit import Ocp, MultipleShooting, SingleShooting
+    res = []
+    for tag, mk_m in (('MS', lambda: MultipleShooting(N=2, intg='rk')), ('SS', lambda: SingleShooting(N=2, intg='rk'))):
+        for plus in (False, True):
+            try:
+                n = 3 if plus else 2
+                ocp = Ocp(T=2)
+                x = ocp.state(n); u = ocp.control()
+                p = ocp.parameter(n, grid='control', include_last=plus)
+                ocp.set_der(x, p * u - x)
+                ocp.add_objective(ocp.at_tf(ca.sumsqr(x)) + ocp.integral(u ** 2)); ocp.subject_to(ocp.at_t0(x) == 1)
+                V = np.arange(1, n * n + 1, dtype=float).reshape(n, n) * np.array([[1, -1, 2][:n]])     # not symmetric
+                ocp.set_value(p, ca.DM(V))
+                ocp.method(mk_m()); ocp.solver('ipopt', {"print_time": False, "ipopt": {"print_level": 0}})
+                _, ps = quiet(ocp.sample, p, grid='control')
+                opti = ocp._method.opti
+                got = np.array(opti.debug.value(ps, opti.initial()))
+                got = got.T if got.shape[0] == n and got.shape[1] != n else got          # rows = time points
+                got = got.reshape(-1, n) if got.shape != (3, n) else got
+                want = np.array([V[:, 0], V[:, 1], V[:, 2] if plus else V[:, 1]])
+                if got.shape == (n, 3): got = got.T
+                ok = got.shape == want.shape and np.allclose(got, want)
+                res.append(('C09.v:vector_interval_param:%s%s' % (tag, '+' if plus else ''), 'ok' if ok else 'mismatch', 'sampled %s, columns of the value given %s' % (np.round(got, 6).tolist(), want.tolist())))
+            except Exception as e:
+                res.append(('C09.v:vector_interval_param:%s%s' % (tag, '+' if plus else ''), 'error', '%s: %s' % (type(e).__name__, (str(e).splitlines() or [''])[-1][:200])))
+    return res
+
+
+def parent_guess_chain():
+    """C12 / C10 at the parent level: guesses of parent variables are applied in order, a later one may refer to an earlier one."""
+    from rockit import Ocp, MultipleShooting
+    res = []
+    try:
+        ocp = Ocp()
+        a = ocp.variable(); b = ocp.variable()
+        s1 = ocp.stage(t0=0, T=1)
+        x = s1.state(); u = s1.control(); s1.set_der(x, u); s1.add_objective(s1.integral(u ** 2)); s1.subject_to(s1.at_t0(x) == a); s1.subject_to(s1.at_tf(x) == b)
+        s1.method(MultipleShooting(N=2, intg='rk'))
+        ocp.add_objective((a - 1) ** 2 + (b - 2) ** 2)
+        # (the guess that refers to a is declared first, the guess for a last: rockit hands the last one over first)
+        ocp.set_initial(b, a - 0.5); ocp.set_initial(a, 3)
+        ocp.solver('ipopt', {"print_time": False, "ipopt": {"print_level": 0}})
+        quiet(lambda: ocp._transcribed)
+        opti = ocp._method.opti
+        got = [float(opti.debug.value(quiet(ocp.value, v_), opti.initial())) for v_ in (a, b)]
+        ok = abs(got[0] - 3) < 1e-12 and abs(got[1] - 2.5) < 1e-12
+        res.append(('C12.g:parent_guess_chain', 'ok' if ok else 'mismatch', 'parent variables start at %s, guesses 3 and a - 0.5' % got))
+    except Exception as e:
+        res.append(('C12.g:parent_guess_chain', 'error', '%s: %s' % (type(e).__name__, (str(e).splitlines() or [''])[-1][:200])))
+    return res
+
+
+def clone_scale_der():
+    """C14 / C12: a clone that re-declares its dynamics with a derivative scale of its own; the template's other clone keeps its
+    own.  Compared with the same two stages declared directly (clone == direct): rows of the NLP at a common point."""
+    import casadi as ca
+    from rockit import Ocp, Stage, DirectCollocation
+    res = []
+    try:
+        def rows(o):
+            quiet(lambda: o._transcribed)
+            opti = o._method.opti
+            F = ca.Function('F', [opti.x, opti.p], [opti.g, opti.lbg, opti.ubg])
+            z = 0.3 + 0.1 * np.arange(opti.nx)
+            g, lb, ub = [np.array(v).reshape(-1) for v in F(z, np.zeros(opti.np))]
+            return sorted(np.round(np.abs(g - lb)[lb == ub], 9).tolist()), opti.nx
+        def direct():
+            o = Ocp()
+            for t0_, sc_, k_ in ((0, 5, 1.0), (1, 40, 2.0)):
+                s_ = o.stage(t0=t0_, T=1); x = s_.state(); u = s_.control()
+                s_.set_der(x, -k_ * x + u, scale=sc_); s_.add_objective(s_.integral(u ** 2)); s_.subject_to(s_.at_t0(x) == 1)
+                s_.method(DirectCollocation(N=2, degree=2))
+            o.solver('ipopt', {"print_time": False, "ipopt": {"print_level": 0}})
+            return o
+        def cloned():
+            o = Ocp()
+            t = Stage(T=1); x = t.state(); u = t.control()
+            t.set_der(x, -1.0 * x + u, scale=5); t.add_objective(t.integral(u ** 2)); t.subject_to(t.at_t0(x) == 1)
+            t.method(DirectCollocation(N=2, degree=2))
+            s1 = o.stage(t, t0=0); s2 = o.stage(t, t0=1)
+            s2.set_der(x, -2.0 * x + u, scale=40)
+            o.solver('ipopt', {"print_time": False, "ipopt": {"print_level": 0}})
+            return o
+        ra, na = rows(quiet(direct)); rb, nb = rows(quiet(cloned))
+        ok = na == nb and len(ra) == len(rb) and np.allclose(ra, rb, rtol=1e-9, atol=1e-9)
+        res.append(('C14.c:clone_scale_der', 'ok' if ok else 'mismatch', 'equality rows (direct) %s vs (cloned, re-declared on one clone) %s' % (ra[:8], rb[:8])))
+    except Exception as e:
+        res.append(('C14.c:clone_scale_der', 'error', '%s: %s' % (type(e).__name__, (str(e).splitlines() or [''])[-1][:200])))
     return res
